@@ -32,6 +32,7 @@ def Step.touches : Step → Path → Prop
   | .truncate p, q => q = p
   | .append p _, q => q = p
   | .remove p, q => q = p
+  | .link _ b, q => q = b
 
 theorem applyStep_frame (f : Files) (s : Step) (q : Path) (h : ¬ s.touches q) : applyStep f s q = f q := by
   cases s with
@@ -44,6 +45,10 @@ theorem applyStep_frame (f : Files) (s : Step) (q : Path) (h : ¬ s.touches q) :
   | truncate p => simp only [Step.touches] at h; simp [applyStep, Files.set, h]
   | append p bs => simp only [Step.touches] at h; simp [applyStep, Files.set, h]
   | remove p => simp only [Step.touches] at h; simp [applyStep, Files.set, h]
+  | link a b =>
+    simp only [Step.touches] at h
+    simp only [applyStep]
+    cases f a <;> cases f b <;> simp [Files.set, h]
 
 theorem runSteps_frame (steps : List Step) (f : Files) (q : Path) (h : ∀ s ∈ steps, ¬ s.touches q) :
     runSteps f steps q = f q := by
@@ -63,15 +68,15 @@ def tindexPath : Path → Prop
 theorem tindexCallSteps_touch (ex : Bool) (data : Bytes) (c : FsCall) (q : Path) (hq : ¬ tindexPath q) :
     ∀ s ∈ tindexCallSteps ex data c, ¬ s.touches q := by
   intro s hs
-  cases c <;> simp only [tindexCallSteps, writeFile] at hs
-  · simp at hs
-  · split at hs
-    · simp at hs; subst hs; simp only [Step.touches]; rintro (h | h) <;> (subst h; simp [tindexPath] at hq)
-    · simp at hs
-  · simp at hs; rcases hs with hs | hs <;> (subst hs; simp only [Step.touches]; intro h; subst h; simp [tindexPath] at hq)
-  · simp at hs; rcases hs with hs | hs <;> (subst hs; simp only [Step.touches]; intro h; subst h; simp [tindexPath] at hq)
-  · simp at hs; subst hs; simp only [Step.touches]; rintro (h | h) <;> (subst h; simp [tindexPath] at hq)
-  · simp at hs
+  have h1 : q ≠ .tindexDat := by intro h; subst h; simp [tindexPath] at hq
+  have h2 : q ≠ .tindexBak := by intro h; subst h; simp [tindexPath] at hq
+  have h3 : q ≠ .tindexTmp := by intro h; subst h; simp [tindexPath] at hq
+  cases c <;> cases ex <;> simp only [tindexCallSteps, writeFile, if_true, if_false, Bool.false_eq_true,
+      List.mem_cons, List.mem_nil_iff, List.not_mem_nil, or_false] at hs <;>
+    first
+      | exact hs.elim
+      | (rcases hs with hs | hs <;> subst hs <;> simp [Step.touches, h1, h2, h3])
+      | (subst hs; simp [Step.touches, h1, h2, h3])
 
 theorem tindexSave_frame (calls : List FsCall) (ex : Bool) (data : Bytes) (f : Files) (q : Path) (hq : ¬ tindexPath q) :
     runSteps f (tindexSaveStepsOf calls ex data) q = f q := by
@@ -90,6 +95,26 @@ theorem map_cfg_poss (l : List PPipe) (g : Bytes → PosMap) (h : ∀ p ∈ l, g
     refine ⟨?_, ih (fun p hp => h p (List.mem_cons_of_mem _ hp))⟩
     have := h a (List.mem_cons_self ..)
     cases a; simp_all
+
+/-! ## the registry file -/
+
+theorem pipesDat_ne_tmp : pipesDat ≠ pipesTmp := by decide
+
+theorem savePipesSteps_eq (c : Codec (List Pipe)) (ps : List Pipe) :
+    savePipesSteps c ps = [.truncate pipesTmp, .append pipesTmp (c.enc ps), .rename pipesTmp pipesDat] := by
+  have : savePipesViaTmpRename = true := by decide
+  simp [savePipesSteps, this, writeFile]
+
+/-- the registry file after a completed `savePipes` -/
+theorem savePipes_at (c : Codec (List Pipe)) (ps : List Pipe) (f : Files) (q : Path) :
+    runSteps f (savePipesSteps c ps) q = if q = pipesDat then some (c.enc ps) else if q = pipesTmp then none else f q := by
+  rw [savePipesSteps_eq]
+  have hne := pipesDat_ne_tmp
+  by_cases h1 : q = pipesDat
+  · subst h1; simp [runSteps, applyStep, Files.set, hne]
+  · by_cases h2 : q = pipesTmp
+    · subst h2; simp [runSteps, applyStep, Files.set, h1]
+    · simp [runSteps, applyStep, Files.set, h1, h2]
 
 /-! ## lightFill hulls of monotone chunks -/
 
